@@ -19,6 +19,10 @@
 (*                  verification can notice                                *)
 (*     "cidbit"     (CAR) a bit of the block CID flipped                   *)
 (*     "cidswap"    (CAR) the block carries the CID of another block       *)
+(*     "cidident"   (CAR) the block is labelled with an identity-multihash *)
+(*                  CID whose embedded digest is not the data              *)
+(*     "cidhash2"   (CAR) labelled with a CID of another hash function     *)
+(*                  (sha2-512) whose digest is not that of the data        *)
 (*     "truncated"  the entry is cut short (the artefact ends inside it):   *)
 (*                  in the middle of its data; "truncprefix" (CAR) right   *)
 (*                  after its length prefix; "trunccid" (CAR) inside its   *)
@@ -31,7 +35,10 @@
 (*     base64 character)                                                   *)
 (*   benign changes: "reorder", "duplicate" (an entry twice),              *)
 (*     "foreigncid" (CAR: the block labelled with a CID of another codec   *)
-(*     that still hashes to the data)                                      *)
+(*     that still hashes to the data), "foreignhash" (CAR: a sha2-512 CID  *)
+(*     that does hash to the data), "secondwrite" (history: ANOTHER        *)
+(*     container is serialized with the same writer variant after this one *)
+(*     and before it is read - what was returned earlier must not change)  *)
 (*                                                                         *)
 (* Machine: Write(fmt, b64, wvariant) -> Damage* -> Read(rvariant): the    *)
 (* CAR reader steps Header -> (Section -> Cid -> Integrity -> AddToken)*,  *)
@@ -40,7 +47,10 @@
 (* Deviations                                                              *)
 (*   "CarB64BytesNoDecode"  FromCarBase64 (byte-slice variant) skips the   *)
 (*                          base64 decoding (pinned tree before the fix)   *)
-(*   "NoIntegrityCheck", "AddTokenNoVerify"   (sensitivity only)           *)
+(*   "NoIntegrityCheck", "AddTokenNoVerify", "IdentityCidTrusted" (the     *)
+(*   integrity check is skipped for identity multihashes), "BytesAliased"  *)
+(*   (the byte-slice writers return a buffer that the next call reuses)    *)
+(*   (sensitivity only)                                                    *)
 (***************************************************************************)
 EXTENDS Integers, Sequences, FiniteSets, TLC, Json
 
@@ -56,7 +66,7 @@ Entry(i) == [tok |-> i, cid |-> i, state |-> "ok"]
 \* the set a reader must return for an undamaged artefact
 Written == {[cid |-> i, tok |-> i] : i \in Toks}
 
-EntryClasses(fmt) == IF fmt = "car" THEN {"databit", "resealed", "cidbit", "cidswap", "truncated", "truncprefix", "trunccid", "zerolen", "oversize"}
+EntryClasses(fmt) == IF fmt = "car" THEN {"databit", "resealed", "cidbit", "cidswap", "cidident", "cidhash2", "truncated", "truncprefix", "trunccid", "zerolen", "oversize"}
                      ELSE {"databit", "resealed", "truncated", "nonbytes"}
 FrameClasses(fmt, b64) == {"version", "notmap"} \cup (IF fmt = "cbor" THEN {"extrakey"} ELSE {}) \cup (IF b64 THEN {"b64char"} ELSE {})
 
@@ -71,7 +81,8 @@ AddToken(e) ==
 \* one CAR block: ldRead, CidFromReader, integrity check, addToken
 CarBlock(e) ==
   IF e.state \in {"truncated", "truncprefix", "trunccid", "zerolen", "oversize"} THEN "err"
-  ELSE IF e.state \in {"databit", "cidbit", "cidswap"} /\ "NoIntegrityCheck" \notin Deviations THEN "err"
+  ELSE IF e.state \in {"databit", "cidbit", "cidswap", "cidhash2"} /\ "NoIntegrityCheck" \notin Deviations THEN "err"
+  ELSE IF e.state = "cidident" /\ "NoIntegrityCheck" \notin Deviations /\ "IdentityCidTrusted" \notin Deviations THEN "err"
   ELSE AddToken(e)
 
 CborEntry(e) ==
@@ -86,7 +97,8 @@ ReadUnits(fmt, units, acc) ==
           ELSE ReadUnits(fmt, Tail(units), acc \cup {[cid |-> e.tok, tok |-> e.tok]})   \* keyed by the CID of the BYTES
 
 Read(a, rv) ==
-  IF a.b64 /\ a.fmt = "car" /\ rv = "bytes" /\ "CarB64BytesNoDecode" \in Deviations THEN [ok |-> FALSE, set |-> {}]
+  IF a.clobbered THEN [ok |-> FALSE, set |-> {}]      \* the bytes handed out earlier were overwritten by a later call
+  ELSE IF a.b64 /\ a.fmt = "car" /\ rv = "bytes" /\ "CarB64BytesNoDecode" \in Deviations THEN [ok |-> FALSE, set |-> {}]
   ELSE IF a.frame # "ok" THEN [ok |-> FALSE, set |-> {}]
   \* a CBOR artefact is decoded as a whole: a truncated entry fails the decode
   ELSE IF a.fmt = "cbor" /\ \E k \in 1..Len(a.units) : a.units[k].state = "truncated" THEN [ok |-> FALSE, set |-> {}]
@@ -99,7 +111,7 @@ vars == <<a, dmg, res>>
 Perms == {p \in [Toks -> Toks] : \A i, j \in Toks : i # j => p[i] # p[j]}
 
 Init == /\ \E fmt \in Fmts, b64 \in BOOLEAN, wv \in {"bytes", "stream"}, p \in Perms :
-             a = [fmt |-> fmt, b64 |-> b64, wv |-> wv, frame |-> "ok", units |-> [k \in Toks |-> Entry(p[k])]]
+             a = [fmt |-> fmt, b64 |-> b64, wv |-> wv, frame |-> "ok", clobbered |-> FALSE, units |-> [k \in Toks |-> Entry(p[k])]]
         /\ dmg = <<>> /\ res = [phase |-> "built"]
 
 Can == res.phase = "built" /\ Len(dmg) < MaxDamage
@@ -112,11 +124,13 @@ DamageEntry == Can /\ \E k \in 1..Len(a.units), c \in EntryClasses(a.fmt) :
    /\ dmg' = Append(dmg, [kind |-> "entry", k |-> k, c |-> c]) /\ UNCHANGED res
 DamageFrame == Can /\ a.frame = "ok" /\ \E c \in FrameClasses(a.fmt, a.b64) :
    a' = [a EXCEPT !.frame = c] /\ dmg' = Append(dmg, [kind |-> "frame", k |-> 0, c |-> c]) /\ UNCHANGED res
-Benign == Can /\ \E k \in 1..Len(a.units), c \in {"duplicate", "foreigncid", "reorder"} :
-   /\ (c = "foreigncid" => a.fmt = "car")
+Benign == Can /\ \E k \in 1..Len(a.units), c \in {"duplicate", "foreigncid", "foreignhash", "reorder", "secondwrite"} :
+   /\ (c \in {"foreigncid", "foreignhash"} => a.fmt = "car")
+   /\ (c = "secondwrite" => k = 1 /\ dmg = <<>>)
    /\ a' = CASE c = "duplicate" -> [a EXCEPT !.units = Append(a.units, a.units[k])]
              [] c = "reorder" -> [a EXCEPT !.units = Tail(a.units) \o <<Head(a.units)>>]
-             [] c = "foreigncid" -> a
+             [] c \in {"foreigncid", "foreignhash"} -> a
+             [] c = "secondwrite" -> [a EXCEPT !.clobbered = (a.wv = "bytes" /\ "BytesAliased" \in Deviations)]
    /\ dmg' = Append(dmg, [kind |-> "benign", k |-> k, c |-> c]) /\ UNCHANGED res
 
 DoRead == res.phase = "built" /\ \E rv \in {"bytes", "stream"} :
